@@ -29,7 +29,7 @@
 #include <adept/Packet.h>
 #include <adept/traits.h>
 
-#ifdef ADEPT_STORAGE_THREAD_SAFE
+#if defined(ADEPT_STORAGE_THREAD_SAFE) || defined(ADEPT_CXX11_FEATURES)
 #include <atomic>
 #endif
 
@@ -41,9 +41,17 @@ namespace adept {
   // -------------------------------------------------------------------
   namespace internal {
     // To check for memory leaks, we keep a running total of the number
-    // of Storage objects that are created and destroyed
-    extern Index n_storage_objects_created_;
-    extern Index n_storage_objects_deleted_;
+    // of Storage objects that are created and destroyed.  Every
+    // Storage constructor and destructor updates these counters, so
+    // with C++11 they are atomic: threads that each create and
+    // destroy their own arrays must not race on them
+#ifdef ADEPT_CXX11_FEATURES
+    typedef std::atomic<Index> StorageCounter;
+#else
+    typedef Index StorageCounter;
+#endif
+    extern StorageCounter n_storage_objects_created_;
+    extern StorageCounter n_storage_objects_deleted_;
   }
 
   // -------------------------------------------------------------------
